@@ -54,6 +54,12 @@ def V2.max (a b : V2 α) : V2 α := ⟨smax a.x b.x, smax a.y b.y⟩
 /-- Bounds of two bounders (`res.min = res.min.Min(c.Min())`, `res.max = res.max.Max(c.Max())`). -/
 def Box3.union (a b : Box3 α) : Box3 α := ⟨a.min.min b.min, a.max.max b.max⟩
 def Box2.union (a b : Box2 α) : Box2 α := ⟨a.min.min b.min, a.max.max b.max⟩
+
+/-- The part of the box `r` inside the bounds `b` (`r.MinVal.Max(b.min)`, `r.MaxVal.Min(b.max)`: the two
+corners `RectCollision`'s overlap test computes).  As a point set it is `r ∩ b` (`clip_contains`); the hierarchy
+code uses it ONLY to decide whether to descend — the children are asked the caller's `r` (`joinedRect3/2`). -/
+def Box3.clip (r b : Box3 α) : Box3 α := ⟨r.min.max b.min, r.max.min b.max⟩
+def Box2.clip (r b : Box2 α) : Box2 α := ⟨r.min.max b.min, r.max.min b.max⟩
 end
 
 section
